@@ -4,6 +4,7 @@ import (
 	"bytes"
 	"fmt"
 	"strings"
+	"time"
 
 	"github.com/ClickHouse/ch-go/proto"
 )
@@ -67,7 +68,7 @@ func c19Leaves() []string {
 	for p := 1; p <= 76; p++ {
 		l = append(l, fmt.Sprintf("Decimal(%d, %d)", p, p/2), fmt.Sprintf("Decimal(%d,0)", p))
 	}
-	l = append(l, "Decimal(9)", "Decimal( 9 , 2 )")
+	l = append(l, "Decimal(9)", "Decimal( 9 , 2 )", "Decimal") // bare Decimal is Decimal(10, 0)
 	return l
 }
 
@@ -134,6 +135,7 @@ func c19Infer(c *Ctx, t string, wellFormed bool) {
 		R.Violate(Violation{Kind: "oracle", Key: "infer-panic", What: "ColAuto.Infer panicked: " + pmsg, Case: cs})
 		return
 	}
+	c19InferModel(c, t, col, err, cs)
 	if err != nil {
 		R.Count("infer:error")
 		return
@@ -316,6 +318,17 @@ func runC19(c *Ctx) {
 		c19Infer(c, c19WellFormed(r, leaves), true)
 		c19Infer(c, c19Malformed(r, leaves), false)
 	}
+	seqN := 300
+	if c.Thorough {
+		seqN = 10000
+	}
+	c19Sequences(c, r.Fork(), leaves, seqN)
+	if child, err := startC06Child(); err == nil {
+		child = deepTypeCases(c, child, "C19", "infer-process-abort", c.Thorough)
+		child.close()
+	} else {
+		R.Note("cannot start child: %v", err)
+	}
 	// relation: all ordered pairs of a pool
 	poolN := 70
 	if c.Thorough {
@@ -348,6 +361,138 @@ func runC19(c *Ctx) {
 				if ans != hx([]byte(got)) {
 					R.Violate(Violation{Kind: "correspondence", Key: "model-" + fn + "-differs", What: fmt.Sprintf("model %s(%q) = %s, code %q", fn, s, ans, got), Case: map[string]any{"type": s}, Obligation: "correspondence c19 " + fn})
 				}
+			}
+		}
+	}
+}
+
+// candidate arguments of time.LoadLocation for a type string: what ColDateTime.Infer / ColDateTime64.Infer can pass for t or
+// for any of its nested element types; the model receives time.LoadLocation's verdict on exactly these names
+func c19LocTable(t string) string {
+	seen := map[string]bool{}
+	var out []string
+	add := func(name string) {
+		if seen[name] || len(out) > 40 {
+			return
+		}
+		seen[name] = true
+		loc, err := time.LoadLocation(name)
+		if err != nil {
+			return
+		}
+		out = append(out, hx([]byte(name))+":"+hx([]byte(loc.String())))
+	}
+	ct := proto.ColumnType(t)
+	for i := 0; i < 110; i++ {
+		e := string(ct.Elem())
+		add(strings.Trim(e, "'"))
+		if _, after, ok := strings.Cut(e, ","); ok {
+			add(strings.Trim(after, "' "))
+		}
+		if e == "" {
+			break
+		}
+		ct = ct.Elem()
+	}
+	if len(out) == 0 {
+		return "."
+	}
+	return strings.Join(out, ",")
+}
+
+func isASCII(s string) bool {
+	for i := 0; i < len(s); i++ {
+		if s[i] >= 0x80 {
+			return false
+		}
+	}
+	return true
+}
+
+// the Lean model of ColAuto.Infer on the same string: same verdict, same reported type
+func c19InferModel(c *Ctx, t string, col *proto.ColAuto, err error, cs map[string]any) {
+	R := c.R
+	if c.D == nil || len(t) > 4000 || !isASCII(t) {
+		// strings.TrimSpace / strings.ToLower act on Unicode; the driver's instance of these parameters is the ASCII one
+		return
+	}
+	ans := c.D.Ask(fmt.Sprintf("c19 infer %s %s", hx([]byte(t)), c19LocTable(t)))
+	R.Compared()
+	f := strings.Fields(ans)
+	if len(f) == 0 {
+		R.Violate(Violation{Kind: "correspondence", Key: "model-infer-differs", What: "no answer from the model for " + t, Case: cs, Obligation: "correspondence c19 infer"})
+		return
+	}
+	implOK := err == nil && col.Data != nil
+	switch {
+	case f[0] == "ok" && implOK:
+		R.Count("infer-model:both-ok")
+		if rep := hx([]byte(col.Data.Type())); len(f) > 1 && f[1] != rep {
+			R.Violate(Violation{Kind: "correspondence", Key: "model-infer-differs", What: fmt.Sprintf("Infer(%q): the created column reports %q, the model's reports %q", t, col.Data.Type(), unhx(f[1])), Case: cs, Obligation: "correspondence c19 infer"})
+		}
+	case f[0] == "err" && !implOK:
+		R.Count("infer-model:both-err")
+	default:
+		R.Violate(Violation{Kind: "correspondence", Key: "model-infer-differs", What: fmt.Sprintf("Infer(%q): code error=%v, model %s", t, err, ans), Case: cs, Obligation: "correspondence c19 infer"})
+	}
+}
+
+// one ColAuto receiving a sequence of requests (a Results kept across queries): every successful call must leave a column whose
+// reported type does not conflict with that call's request, and a request that fails on a fresh ColAuto must fail here too
+func c19Sequences(c *Ctx, r *Rng, leaves []string, n int) {
+	R := c.R
+	for i := 0; i < n; i++ {
+		a := new(proto.ColAuto)
+		var hist []string
+		var wfs []bool
+		k := 2 + r.Intn(4)
+		for j := 0; j < k; j++ {
+			var t string
+			wf := true
+			switch {
+			case j > 0 && r.Chance(35):
+				k := r.Intn(len(hist)) // a retry of an earlier request
+				t, wf = hist[k], wfs[k]
+			case r.Chance(30):
+				t, wf = c19Malformed(r, leaves), false
+				if len(t) > 2000 {
+					t = "Unknown"
+				}
+			case r.Chance(25):
+				// well-formed ClickHouse types that automatic inference does not support
+				t = []string{"Tuple(String, Int8)", "Map(String, UInt8)", "LowCardinality(Nullable(String))", "FixedString(10)", "Array(Array(Int8))", "Point", "JSON"}[r.Intn(7)]
+			default:
+				t = c19WellFormed(r, leaves)
+			}
+			wfs = append(wfs, wf)
+			hist = append(hist, t)
+			cs := map[string]any{"requests": append([]string(nil), hist...)}
+			R.Case("infer-seq|"+strings.Join(hist, "|"), j > 0)
+			R.Count("shape:infer-sequence")
+			var err error
+			if p, msg := safely(func() { err = a.Infer(proto.ColumnType(t)) }); p {
+				R.Violate(Violation{Kind: "oracle", Key: "infer-panic", What: "ColAuto.Infer panicked on a reused ColAuto: " + msg, Case: cs})
+				break
+			}
+			if !wf {
+				continue // the property speaks about well-formed types; panics were looked for above
+			}
+			_, ferr, _ := inferSafely(t)
+			if err == nil && ferr != nil {
+				R.Violate(Violation{Kind: "oracle", Key: "infer-reused-accepts-rejected", What: fmt.Sprintf("request %d (%q) fails on a fresh ColAuto (%v) but succeeded on the reused one, which holds a %T reporting %q", j, t, ferr, a.Data, a.Data.Type()), Case: cs})
+				break
+			}
+			if err != nil {
+				continue
+			}
+			rep := a.Data.Type()
+			if rep.Conflicts(proto.ColumnType(t)) || proto.ColumnType(t).Conflicts(rep) {
+				R.Violate(Violation{Kind: "oracle", Key: "infer-reused-wrong-column", What: fmt.Sprintf("request %d (%q) succeeded on the reused ColAuto, which holds a column reporting %q", j, t, rep), Case: cs})
+				break
+			}
+			if a.Type() != proto.ColumnType(t) {
+				R.Violate(Violation{Kind: "oracle", Key: "infer-reused-wrong-column", What: fmt.Sprintf("request %d (%q) succeeded but the ColAuto reports %q", j, t, a.Type()), Case: cs})
+				break
 			}
 		}
 	}
